@@ -50,7 +50,20 @@ impl Call {
     }
 }
 
+/// The pool: the core streams (first calls / every-cut start states are built from these), then the
+/// "literal run, then a tiny stored block" family (whole-input calls only; same index space so that
+/// replay files stay valid).
 pub fn pool() -> Vec<Vec<u8>> {
+    let mut v = core_pool();
+    v.extend(family());
+    v
+}
+
+fn family() -> Vec<Vec<u8>> {
+    crate::streams::literal_run_then_tiny_stored(None, false).into_iter().map(|g| g.bytes).chain(crate::streams::literal_run_then_tiny_stored(Some((7, 2)), false).into_iter().step_by(3).map(|g| g.bytes)).collect()
+}
+
+fn core_pool() -> Vec<Vec<u8>> {
     let mut v: Vec<Vec<u8>> = vec![];
     // the F1 history stream: long matches at distance 8
     let abc: Vec<u8> = b"abcdefgh".iter().cycle().take(400).cloned().collect();
@@ -272,7 +285,7 @@ fn first_calls(pool: &[Vec<u8>], thorough: bool) -> Vec<Call> {
         (20, 0), (64, 0), (300, 0), (32768, 0), (8, 0), (40000, 5), (16, 3), (1, 0),
         (258, 0), (259, 0), (260, 0), (261, 0), (262, 0), (512, 250), (512, 252), (512, 253),
     ];
-    for (pi, p) in pool.iter().enumerate() {
+    for (pi, p) in pool.iter().enumerate().take(pool.len() - family().len()) {
         let ks: Vec<usize> = if thorough { vec![1, 2, 3, p.len() / 2, p.len().saturating_sub(1), p.len()] } else { vec![1, 3, p.len() / 2, p.len()] };
         for &k in &ks {
             for (fi, &f) in flagsets.iter().enumerate() {
@@ -382,11 +395,29 @@ pub fn run(tier: &str) -> i32 {
             }
         }
     });
+    // ---- part A0: one whole-input call per stream of the "literal run, then a tiny stored block"
+    // family (the stored block's header and payload are served out of the bit buffer; every fill
+    // level of the bit buffer at the end-of-block code), each flag set and geometry of a small menu
+    let core_n = pool.len() - family().len();
+    let fam: Vec<usize> = (core_n..pool.len()).collect();
+    let accs_a0 = par_for(fam.len(), Acc::default, |i, acc| {
+        watchdog::tick(8_000_000 + i as u64, 0);
+        let b = &pool[fam[i]];
+        let z = b[0] & 0x0f == 8 && b.len() > 1 && ((b[0] as u32) << 8 | b[1] as u32) % 31 == 0;
+        let zf = if z { F_ZLIB } else { 0 };
+        let mut out = vec![0u8; 40001];
+        for &(f, ol, op) in &[(F_FLAT | zf, 40000usize, 0usize), (F_FLAT | F_MORE | zf, 300, 0), (zf, 32768, 0), (F_MORE | zf, 32768, 32000), (F_FLAT | zf, 600, 300)] {
+            let c1 = Call { src: fam[i], off: 0, n: b.len(), gar: 0, flags: f, out_len: ol, out_pos: op, budget: usize::MAX };
+            let mut r1 = DecompressorOxide::new();
+            ctx.call(&mut r1, &c1, &mut out, &[], acc, false, false);
+            acc.histories += 1;
+        }
+    });
     // ---- part A2: EVERY cut of the first 96 bytes of every pool stream as the first call (so every
     // suspended state x every number of bits left pending in the bit buffer is a start state), then
     // the reduced second-call product (which contains "no input, no room", "one byte", "the rest")
     let mut cut_firsts: Vec<Call> = vec![];
-    for (pi, p) in pool.iter().enumerate() {
+    for (pi, p) in pool.iter().enumerate().take(core_n) {
         for k in 1..=p.len().min(96) {
             for &(f, ol, op) in &[(F_MORE, 32768usize, 0usize), (F_MORE | F_FLAT, 40000, 0), (F_MORE | F_ZLIB | F_FLAT, 40000, 7)] {
                 if !th && (pi + k) % 2 != 0 && f != F_MORE | F_FLAT {
@@ -500,7 +531,7 @@ pub fn run(tier: &str) -> i32 {
     let mut statuses = BTreeSet::new();
     let mut fails = BTreeSet::new();
     let (mut badparam, mut sticky) = (0, 0);
-    for a in accs.into_iter().chain(accs_a2) {
+    for a in accs.into_iter().chain(accs_a2).chain(accs_a0) {
         calls += a.calls;
         hist += a.histories;
         states.extend(a.states);
